@@ -432,3 +432,98 @@ Check C14_public_pointer_pins : forall d p toks ev path,
   rfc_decode p = Some path -> ok_jp d p toks ev = true -> toks = path /\ ev = sp_get d path.
 Print Assumptions C14_public_pointer_ok.
 Print Assumptions C14_public_pointer_pins.
+
+(** ** the pointer functions of the model are the ones re-translated from the Rust source on this run
+    (bin/rs2v, string mode: Gen/PointerGen.v, Proofs/PointerGenAgree.v).  Each rendering returns [Ok]
+    of the model's value on every byte string: no panic, same result.  [utf8_cont_ok] is a necessary
+    condition of UTF-8 validity (true of every [&str]); it is what [&pointer[1..]] needs in order not
+    to hit Rust's char-boundary panic.  [register_spec]: the callable is stored under
+    [canonical_pointer] of the parsed registration path (not under the raw path). *)
+From RepeV Require Import Base.GenStrPrelude Gen.PointerGen Proofs.PointerGenAgree.
+
+Theorem C14_source_translation :
+  agrees1 gen_jp_parse (fun p => Ok (Registry.jp_parse p)) /\
+  agrees2 gen_jp_evaluate (fun d p => Ok (Registry.jp_eval d p)) /\
+  agrees1 gen_unescape_token (fun t => Ok (opt_res (Registry.unescape_token t))) /\
+  agrees1 gen_escape_token (fun t => Ok (Registry.escape_token t)) /\
+  agrees1 gen_canonical_pointer (fun segs => Ok (Registry.canonical_pointer segs)) /\
+  match gen_parse_pointer with
+  | Some f => forall p, utf8_cont_ok p = true -> f p = Ok (gen_res (Registry.parse_pointer p))
+  | None => True
+  end /\
+  match gen_canonical_key with
+  | Some f => forall p, utf8_cont_ok p = true -> f p = Ok (gen_res (Registry.canonical_key p))
+  | None => True
+  end /\
+  match gen_parse_registration_path with
+  | Some f => forall p, utf8_cont_ok p = true -> f p = Ok (gen_res (Registry.parse_registration_path p))
+  | None => True
+  end /\
+  match gen_register_function_key with
+  | Some f => forall ens p, utf8_cont_ok p = true -> f ens p = Ok (register_spec ens p)
+  | None => True
+  end /\
+  agrees2 gen_registry_matches (fun pre path => Ok (Registry.mount_matches pre path)) /\
+  agrees2 gen_pointer_for (fun pre path => Ok (Registry.pointer_for pre path)) /\
+  agrees1 gen_registry_prefix (fun prefix => Ok (Registry.normalize_prefix prefix)).
+Proof. exact c14_source_translation. Qed.
+
+Theorem C14_source_translation_errors :
+  (forall p e, Registry.parse_pointer p = Registry.Err e -> e = Registry.EInvalidPointer) /\
+  (forall p e, Registry.canonical_key p = Registry.Err e -> e = Registry.EInvalidPointer) /\
+  (forall p e, Registry.parse_registration_path p = Registry.Err e -> e = Registry.EInvalidPointer).
+Proof. exact c14_source_translation_errors. Qed.
+
+Check C14_source_translation :
+  agrees1 gen_jp_parse (fun p => Ok (Registry.jp_parse p)) /\
+  agrees2 gen_jp_evaluate (fun d p => Ok (Registry.jp_eval d p)) /\
+  agrees1 gen_unescape_token (fun t => Ok (opt_res (Registry.unescape_token t))) /\
+  agrees1 gen_escape_token (fun t => Ok (Registry.escape_token t)) /\
+  agrees1 gen_canonical_pointer (fun segs => Ok (Registry.canonical_pointer segs)) /\
+  match gen_parse_pointer with
+  | Some f => forall p, utf8_cont_ok p = true -> f p = Ok (gen_res (Registry.parse_pointer p))
+  | None => True
+  end /\
+  match gen_canonical_key with
+  | Some f => forall p, utf8_cont_ok p = true -> f p = Ok (gen_res (Registry.canonical_key p))
+  | None => True
+  end /\
+  match gen_parse_registration_path with
+  | Some f => forall p, utf8_cont_ok p = true -> f p = Ok (gen_res (Registry.parse_registration_path p))
+  | None => True
+  end /\
+  match gen_register_function_key with
+  | Some f => forall ens p, utf8_cont_ok p = true -> f ens p = Ok (register_spec ens p)
+  | None => True
+  end /\
+  agrees2 gen_registry_matches (fun pre path => Ok (Registry.mount_matches pre path)) /\
+  agrees2 gen_pointer_for (fun pre path => Ok (Registry.pointer_for pre path)) /\
+  agrees1 gen_registry_prefix (fun prefix => Ok (Registry.normalize_prefix prefix)).
+Check C14_source_translation_errors :
+  (forall p e, Registry.parse_pointer p = Registry.Err e -> e = Registry.EInvalidPointer) /\
+  (forall p e, Registry.canonical_key p = Registry.Err e -> e = Registry.EInvalidPointer) /\
+  (forall p e, Registry.parse_registration_path p = Registry.Err e -> e = Registry.EInvalidPointer).
+
+(** the definitions used above are the plain ones *)
+Check (eq_refl : utf8_cont_ok = fun s => cont_ok_after 0 s).
+Check (eq_refl : cont_ok_after = fix cont_ok_after (prev : byte) (s : str) : bool :=
+  match s with
+  | [] => true
+  | b :: s' => negb ((prev <? 128) && (128 <=? b) && (b <? 192)) && cont_ok_after b s'
+  end).
+Check (eq_refl : @gen_res = fun A r =>
+  match r with Registry.Ok a => ROk a | Registry.Err _ => RErr GE_InvalidPointer end).
+Check (eq_refl : @opt_res = fun A o => match o with Some a => ROk a | None => RErr tt end).
+Check (eq_refl : register_spec = fun ens path =>
+  match Registry.parse_registration_path path with
+  | Registry.Err _ => RErr GE_InvalidPointer
+  | Registry.Ok [] => RErr GE_InvalidPointer
+  | Registry.Ok segs =>
+      match ens segs with
+      | RErr e => RErr e
+      | ROk _ => ROk (RegFn (Some segs) (Some (Registry.canonical_pointer segs)))
+      end
+  end).
+
+Print Assumptions C14_source_translation.
+Print Assumptions C14_source_translation_errors.
